@@ -45,7 +45,13 @@ class Renderer:
     def name(self, n):
         return self.names.get(n, n)
 
-    def r(self, n, parent_prec=0, side=None, parent_op=None):
+    def r(self, n, parent_prec=0, side=None, parent_op=None, edge=None):
+        """edge: the node ends at the right end of the whole equation text (root, or right operand along the right
+        spine).  In spelling 'bareif' an IF there, as right operand of + or -, is written without parentheses (the
+        grammar accepts `a + IF c THEN x ELSE y`; its ELSE branch extends to the end of the text)."""
+        if edge is None:
+            edge = (parent_op is None and side is None and parent_prec == 0 and not getattr(self, "_inside", False))
+        self._inside = True
         k = n[0]
         if k == "num":
             s = fmt_num(n[1])
@@ -76,8 +82,8 @@ class Renderer:
                 a = self.r(n[2], p + 1, "l", op)
                 b = self.r(n[3], p + 1, "r", op)
             else:               # left associative
-                a = self.r(n[2], p, "l", op)
-                b = self.r(n[3], p + 1, "r", op)
+                a = self.r(n[2], p, "l", op, edge=False)
+                b = self.r(n[3], p + 1, "r", op, edge=edge)
             x = XOP[op]
             if self.sp == "space" and not x.startswith(" "):
                 x = self.ws + x + self.ws
@@ -101,6 +107,8 @@ class Renderer:
             s = "IF %s THEN %s ELSE %s" % (self.r(n[1], 0), self.r(n[2], 0), self.r(n[3], 0))
             if self.sp == "space":
                 s = "IF  %s \n THEN  %s \n ELSE  %s" % (self.r(n[1], 0), self.r(n[2], 0), self.r(n[3], 0))
+            if self.sp == "bareif" and edge and side == "r" and parent_op in ("+", "-"):
+                return s
             if parent_prec > 0 or self.sp == "full":
                 return "(" + s + ")"
             return s
@@ -120,6 +128,15 @@ class Renderer:
 
 def render(n, spelling="min", names=None):
     return Renderer(spelling, names).r(n, 0)
+
+
+def has_bare_if(n, edge=True, side=None, parent_op=None):
+    """would spelling 'bareif' differ from 'min' for this AST?"""
+    if n[0] == "if":
+        return edge and side == "r" and parent_op in ("+", "-")
+    if n[0] == "bin" and n[1] in PREC and PREC[n[1]] in (5, 6) :
+        return has_bare_if(n[3], edge, "r", n[1])
+    return False
 
 
 class XmileRef(refsd.RefModel):
